@@ -101,7 +101,7 @@ func c06SendResp(c *cx) {
 			}
 			return ""
 		}
-		okl := get("stanzaName") == "p3.Name" && get("ctx") == "p0" && strings.HasPrefix(get("c"), "local:c<chan ")
+		okl := get("stanzaName") == "p3.Name" && get("ctx") == "p0" && eng.Glob("local:*<chan *", get("c"))
 		c.r.Check(id, f, "waiter entry", "K: the entry records the request's stanza name, a fresh channel and the caller's context", cl.Pos(), okl, "entry is "+get("stanzaName")+", "+get("c")+", "+get("ctx"))
 	}
 	// the wait: select {rr := <-c ; <-ctx.Done()}
